@@ -291,6 +291,21 @@ def jobs(tier, seed):
         add('tls', model='exp', xlay=[E, E, F_, Ei], ylay=[E, F_, E, E])
         add('nonlin', model='cosh', xs=[0.0, 1.0, 3.0, 4.0], ylay=[E, E, F_, Ei], correlated=True)
         add('nonlin', model='exp2d', xs=[[0.5, 1.0, 2.0, 3.0], [1.0, -1.0, 0.5, 2.0]], ylay=[E, E, F_, E], priors={'2': F_})
+        # cross product of model family x data layout x priors x minimiser x chi-square kind
+        import itertools
+        M2 = {'e|r1': [1, 2, 3, 4, 5], 'e|r2': [1, 2, 3, 4, 5, 6]}
+        for model, ys, pr, meth, co in itertools.product(('exp', 'cosh', 'rational', 'power'), ([E, E, E], [E, F_, Ei], [M2, CV, E]), (None, {'1': F_}, {'0': Ei, '1': F_}),
+                                                         (None, 'migrad', 'Nelder-Mead'), (False, True)):
+            kw = dict(model=model, xs=[0.5, 1.0, 2.0] if model != 'cosh' else [0.0, 1.0, 3.0], ylay=ys)
+            if pr:
+                kw['priors'] = pr
+            if meth:
+                kw['method'] = meth
+            if co:
+                kw['correlated'] = True
+            add('nonlin', **kw)
+        for model, xl, yl in itertools.product(('line', 'exp', 'rational'), ([E, E, E], [E, F_, Ei], [F_, CV, E]), ([E, E, E], [F_, E, Ei])):
+            add('tls', model=model, xlay=xl, ylay=yl)
     for k in ('obs', 'float', 'mixed'):
         add('fit_lin', xkind=k)
     return J
